@@ -91,6 +91,14 @@ class Gen:
         if topic not in self.topics and ("\x00" not in topic or self.wild):
             self.topics.append(topic)
 
+    def op_lookalike(self):
+        """a zero-context frame whose topic merely resembles xs.context: it registers nothing, now and after a reopen -
+        its id is probed as a context from here on"""
+        topic = self.r.choice(["xs.context2", "xs.contexts", "xs.context.note", "xs.contex", "xs.context "])
+        ln = self.emit(f"append - {xh(topic)} - - {self.r.choice(['-', 'forever', 'head:2'])}", "lookalike")
+        self.dead_ctxs.append(f"@{ln}")
+        self.frames.append(dict(line=ln, ctx="-", topic=topic, ttl="-", kind="append"))
+
     def op_bad_ctx_append(self):
         self.emit(f"append {self.r.choice(['@%d' % self.r.randrange(max(1, len(self.lines)))] if self.lines else ['#9'])} "
                   f"{xh(XS_CONTEXT)} - - -", "ctxframe_nonzero")
@@ -183,6 +191,9 @@ class Gen:
         for f in self.r.sample(timed, min(4, len(timed))):
             self.emit(f"get @{f['line']}", "probe_get")
 
+    def op_rawdump(self):
+        self.emit("rawdump", "rawdump")
+
     def op_reopen(self):
         self.emit("reopen", "reopen")
 
@@ -224,7 +235,9 @@ class Gen:
         w = dict(self.p.get("op_w", {"register": 2, "append": 10, "import": 3, "remove": 3, "tick": 2,
                                      "gc": 3, "reopen": 1, "badctx": 0.3}))
         w.setdefault("lazyread", self.p.get("w_lazyread", 1))
-        fns = {"register": self.op_register, "append": self.op_append, "import": self.op_import,
+        w.setdefault("lookalike", self.p.get("w_lookalike", 0.5))
+        w.setdefault("rawdump", 1.5)
+        fns = {"rawdump": self.op_rawdump, "lookalike": self.op_lookalike, "register": self.op_register, "append": self.op_append, "import": self.op_import,
                "remove": self.op_remove, "tick": self.op_tick, "gc": self.op_gc,
                "reopen": self.op_reopen, "badctx": self.op_bad_ctx_append, "lazyread": self.op_lazyread}
         kinds = list(w)
@@ -246,9 +259,11 @@ class Gen:
             if self.r.random() < self.p.get("p_probe", 0.35):
                 self.probes()
         self.probes(full=True)
+        self.emit("rawdump", "rawdump")
         if self.p.get("final_drain", True):
             self.emit("drain", "gc")
             self.probes(full=True)
+            self.emit("rawdump", "rawdump")
         return self.lines
 
 
